@@ -54,7 +54,7 @@ func (c12) Mandatory(tier string) []string {
 		m = append(m, "prov:hasher-"+a)
 		m = append(m, "verify:"+a+":accept", "verify:"+a+":reject")
 	}
-	for _, h := range []string{"correct", "other-content", "truncated", "leading-zeros-dropped", "other-algorithm", "upper-case", "non-hex"} {
+	for _, h := range []string{"correct", "other-content", "one-digit-off", "truncated", "leading-zeros-dropped", "other-algorithm", "upper-case", "non-hex"} {
 		m = append(m, "recorded:"+h)
 	}
 	for _, s := range []string{"content", "bit-flipped", "truncated", "other", "empty"} {
@@ -403,6 +403,12 @@ func (p c12) verify(c *core.C, cs c12Verify) {
 		rec = hex.EncodeToString(digest(cs.Algo, other))
 	case "truncated":
 		rec = trueHex[:len(trueHex)-2*r.Range(1, 4)]
+	case "one-digit-off":
+		// the true digest with ONE hex digit changed: the last, the first, or one in between
+		pos := []int{len(trueHex) - 1, len(trueHex) - 2, 0, 1, r.Intn(len(trueHex))}[r.Intn(5)]
+		b := []byte(trueHex)
+		b[pos] = "0123456789abcdef"[(strings.IndexByte("0123456789abcdef", b[pos])+1+r.Intn(15))%16]
+		rec = string(b)
 	case "leading-zeros-dropped":
 		// a digest that starts with zero digit(s), recorded without them (as a number would print)
 		want := "0"
@@ -602,7 +608,7 @@ func (p c12) RunBatch(t *core.T, b core.Batch) {
 	case "verify":
 		provs := []struct{ prov, algo string }{{"best-sha256", "sha256"}, {"best-sha512", "sha512"}, {"best-both", "sha256"}, {"dsc-sha256", "sha256"}, {"sources-sha256", "sha256"},
 			{"dsc-md5", "md5"}, {"dsc-sha1", "sha1"}, {"hasher-md5", "md5"}, {"hasher-sha1", "sha1"}, {"hasher-sha256", "sha256"}, {"hasher-sha512", "sha512"}}
-		recs := []string{"correct", "correct", "other-content", "truncated", "leading-zeros-dropped", "other-algorithm", "upper-case", "non-hex"}
+		recs := []string{"correct", "correct", "other-content", "one-digit-off", "one-digit-off", "truncated", "leading-zeros-dropped", "other-algorithm", "upper-case", "non-hex"}
 		strs := []string{"content", "content", "bit-flipped", "truncated", "other", "empty"}
 		for i := 0; i < b.N; i++ {
 			pv := provs[(i+b.Arg)%len(provs)]
